@@ -386,6 +386,7 @@ func runC20(c *Ctx) {
 	ruleGoCapture(c)
 
 	ruleResultOnEveryExit(c) // "never deadlocks": the command loop blocks on the delivery result
+	ruleGoBounded(c)
 
 	R.Rule("R-lock-order", "E7", "the acquired-while-holding graph over the package mutexes is acyclic; no blocking channel operation or backend-independent wait happens under a lock", 2)
 	edges := map[[2]string]string{}
